@@ -41,6 +41,20 @@ CLAIMED.update({
              technique='exhaustive crash injection before every SQL statement of a write corpus on the real code, surviving state judged by TLC (TraceFault.tla); Tx.tla with Crash actions model checked (CrashConsistent)',
              text='The request is abandoned (process death, transaction in flight rolled back) before each of its SQL statements, i.e. before and after every statement and every commit; TLC decides that the surviving database is the one before or the one after the request apart from consumers without allocations, and satisfies capacity safety, referential integrity and the forest invariant.'),
 })
+CAND_NOTE = ('Trusted base: TLC, pv/cand.py (query renderer / response projection), pv/project.py, SQLite. The reference is declarative (spec/Candidates.tla) and shares no structure with the code; '
+             'it is an envelope CandMust <= observed <= CandMay whose three documented corners are the only places where equality is not demanded. States and queries are generated within the C03 scope, not enumerated; '
+             'the TLC model MC_Cand enumerates a small family systematically.')
+
+def cnd(text, design_ref):
+    return dict(engine='cand', category='model_checking', text=text, design_ref=design_ref, note=CAND_NOTE,
+                technique='declarative TLA+ reference (Candidates.tla) evaluated by TLC on every recorded response of the real service (TraceCand.tla) + TLC model checking of the reference against API!Apply on a systematic small family (MC_Cand)')
+
+CLAIMED.update({
+ 'C02': cnd('Every returned allocation request is checked by TLC for the structural laws (per class the placed amounts sum to the amounts asked, mappings name the providers that carry each group, providers exist) and the provider summaries for equality with the stored inventory / usage / traits / parent / root per microversion; each returned request (up to a bound per response) is then PUT unchanged as the allocations of a fresh consumer from a snapshot and must be answered 204. At design level TLC proves on 51 840 (state, query) pairs that every candidate of the reference is accepted by API!Apply.', '7.2'),
+ 'C03': cnd('For every generated (database state, query) pair without limit, TLC compares the observed set of (allocations, mappings) with the set comprehension of spec/Candidates.tla: nothing the rules require may be missing (CandMust), nothing outside them may be returned (CandMay); below 1.29 only one-provider-per-tree combinations.', '7.3'),
+ 'C13': cnd('For every generated combination of the listing filters (name, uuid, in_tree, member_of incl. repeated / in: / ! / !in:, required incl. in: and !, resources) in every generated state the returned uuid set must equal ListProviders(s, f); unknown traits / classes 400.', '7.13'),
+ 'C20': cnd('For queries with a non-empty unlimited result: every limit 1..M+1 under both settings of randomize_allocation_candidates and several seeds; TLC checks count = min(N, M), distinctness, subset of the unlimited result, summaries, and - randomisation off - that repetition returns the identical ordered list.', '7.20'),
+})
 NOT_CLAIMED = {}
 ENGINES = [
  {'name': 'seq', 'path': 'pv/seqengine.py', 'serves_properties': ['C01', 'C04', 'C08', 'C09', 'C10', 'C11', 'C12', 'C19'],
@@ -50,4 +64,6 @@ ENGINES.append({'name': 'concur', 'path': 'pv/concur.py', 'serves_properties': [
   'kind_free_text': 'spec/Tx.tla + TxRaces.tla (transaction-structure model, TLC); pv/sched.py deterministic transaction scheduler over the real WSGI app; spec/TraceSerial.tla (TLC judges each recorded interleaving)'})
 ENGINES.append({'name': 'fault', 'path': 'pv/faults.py', 'serves_properties': ['C17', 'C18'],
   'kind_free_text': 'statement-level fault / crash injection through SQLAlchemy engine events; spec/TraceFault.tla judges each outcome with API!Apply; spec/Tx.tla Crash/Fault actions (TxSingle.cfg)'})
+ENGINES.append({'name': 'cand', 'path': 'pv/cand.py', 'serves_properties': ['C02', 'C03', 'C13', 'C20'],
+  'kind_free_text': 'spec/Candidates.tla declarative reference; spec/TraceCand.tla (TLC judges recorded responses); spec/MC_Cand.tla (TLC, reference vs API!Apply); claim replay of returned candidates'})
 NOTES = 'See DESIGN.md. ./check <id> --tier quick|thorough [--seed N] [--replay FILE]; exit 2 = machinery failure.'
